@@ -324,6 +324,10 @@ pub open spec fn kind_incomplete_agrees(r_err: Option<V1Error>, k: Option<V1K>) 
     ((r_err matches Some(e) && v1_err_incomplete(e)) <==> (k matches Some(kk) && v1k_incomplete(kk)))
     && ((r_err is Some && v1_err_incomplete(r_err->Some_0)) ==> (k is Some && v1_kind(r_err->Some_0) == k->Some_0))
 }
+/// only the classification (what C05, C12 and C18 need): the result is an incomplete error exactly when the verdict is
+pub open spec fn class_incomplete_agrees(r_err: Option<V1Error>, k: Option<V1K>) -> bool {
+    (r_err matches Some(e) && v1_err_incomplete(e)) <==> (k matches Some(kk) && v1k_incomplete(kk))
+}
 pub open spec fn kind_terminal_agrees(r_err: Option<V1Error>, k: Option<V1K>) -> bool {
     (r_err is Some && !v1_err_incomplete(r_err->Some_0)) ==> (k is Some && v1_kind(r_err->Some_0) == k->Some_0)
 }
